@@ -653,7 +653,33 @@ bool do_op(Case& c, const std::string& o, std::string& err) {
 
 uint32_t g_case_no = 0;
 
+// Policy probe (ROBUSTNESS.md 4): RequestList::calculate_pipe_size as compiled, for both modes, over a sweep of rates
+// (bytes/s): every KB/s up to 512 KB/s, then powers of two up to the uint32 maximum. Also Delegator::block_size.
+std::string probe_pipe() {
+  std::ostringstream o;
+  o << "probe block_size=" << torrent::Delegator::block_size << " pipe=";
+  torrent::Delegator d;
+  bool first = true;
+  {
+    torrent::RequestList rl;
+    rl.set_delegator(&d);
+    std::vector<uint32_t> rates;
+    for (uint32_t kb = 0; kb <= 512; kb++) { rates.push_back(kb * 1024); if (kb) rates.push_back(kb * 1024 - 1); }
+    for (int sh = 20; sh < 32; sh++) { rates.push_back(1u << sh); rates.push_back((1u << sh) + 12345); }
+    rates.push_back(0xffffffffu);
+    for (int a = 0; a < 2; a++) {
+      d.set_aggressive(a != 0);
+      for (uint32_t r : rates) {
+        o << (first ? "" : ",") << a << ":" << r << ":" << rl.calculate_pipe_size(r);
+        first = false;
+      }
+    }
+  }
+  return o.str();
+}
+
 std::string run_case(Session& S, const std::string& line) {
+  if (line.rfind("probe-pipe", 0) == 0) return probe_pipe();
   size_t bar = line.find('|');
   if (bar == std::string::npos) return "BADCASE";
   std::map<std::string, std::string> kv;
